@@ -35,7 +35,7 @@ class C09(BaseCheck):
   REQUIRED_ANCHORS = ANCHORS
   REQUIRED_CLASSES = ('thrift', 'mux', 'multi-endpoint', 'outage:refuse', 'outage:blackhole', 'down-at-first-connect', 'recovered',
                       'fail-fast-seen', 'backoff-capped', 'closed-while-down', 'closed-on-error', 'staggered-outages',
-                      'recover:first-down-first', 'recover:last-down-first', 'rotation-during-outage', 'waiters-at-outage')
+                      'recover:first-down-first', 'recover:last-down-first', 'rotation-during-outage', 'waiters-at-outage', 'stock-resurrector')
   ASSUMPTIONS = ('initial_wait_interval > 1 (the implementation\'s x**exponent back-off only grows above 1)',
                  'black-holed connects give up after 3 s in these scenarios (SYN timeout shortened so that '
                  'attempt durations stay small against the retry intervals)')
@@ -255,9 +255,14 @@ class C09(BaseCheck):
     # pool at the instant the endpoint's connection dies
     bounded = kind == 'thrift' and rng.random() < 0.4
     pool = {'min_watermark': rng.choice([0, 1]), 'max_watermark': rng.choice([1, 1, 2]), 'max_queue_len': 64} if bounded else None
+    # the library's default schedule is either spelled out or left to the stock builder (another client
+    # of this process - an earlier case - will have been built with a customised resurrector)
+    stock = (init, mx, ex) == (5, 60, 1.2) and rng.random() < 0.6
+    if stock:
+      classes.add('stock-resurrector')
     w = StackWorld(env, rng, kind=kind, n_eps=1, balancer=rng.choice(['aperture', 'heap']), timeout=1.0,
                    open_timeout=0 if first_down else None, policy=servers.DefaultPolicy(0.002), pool=pool,
-                   resurrector={'initial_wait_interval': init, 'max_wait_interval': mx, 'backoff_exponent': ex},
+                   resurrector=None if stock else {'initial_wait_interval': init, 'max_wait_interval': mx, 'backoff_exponent': ex},
                    server_modes=[down_mode if first_down else 'up'],
                    connect_latency=rng.choice([0.0005, 0.01, 0.1]))
     srv = w.servers[0]
